@@ -864,13 +864,14 @@ balances are words) and 256-bit balances in the database. Failures are classifie
 journal / frame / interpreter code: the code store does not know a hash (`code_by_hash`: a database miss), an executable
 precompile panics (C23: MODEXP on a huge length and gas limit does, so unconditional panic-freedom is FALSE), a missing
 oracle answer, a fatal database error; `Resid` — NOT excluded here: interpreter faults (`interpreter: …`,
-`insert outcome: …`, `free_context`, an EOFCREATE action, an internal result flag), and the fuel. `sload` / `sstore` /
+`insert outcome: …`, `free_context`, an EOFCREATE action), and the fuel. No frame ends with an internal result flag
+(`RGood`: the strict gas sweep also carries the `InstructionResult` of every halt), so `output` never panics. `sload` / `sstore` /
 `selfdestruct` on a vacant account cannot happen: the request carries the frame's own address, which is loaded. The two environment panics (`already checked`, `initcode_cost`) are
 impossible for EVERY environment (`tv_validateEnv_ne_panic`, `initialTxGas_ne_none`). Everything else —
 every `unwrap` of the journal and of the frame machine: `load_account`, `load_code`, `load_account_delegated`, `touch`,
 `transfer`, `checkpoint_revert`, `inc_nonce`, `create_account_checkpoint`, `set_code`, `tstore`, `account not loaded`,
-`code not cached`, `empty call stack`, `already checked`, `initcode_cost`, `sload`, `sstore`, `selfdestruct` — is proved
-impossible. -/
+`code not cached`, `empty call stack`, `already checked`, `initcode_cost`, `sload`, `sstore`, `selfdestruct`,
+`unexpected internal return flag` — is proved impossible. -/
 
 open Revm.Proofs.Frame (Good DbBal) in
 /-- LINK (C07 `hostStep_total` on EvmHost): every `Host` answer on a well-formed world, with the account whose storage is
@@ -899,7 +900,7 @@ world (`LI`) and whose targets are loaded (L3 `EvmInstLoaded.Inv`), `run_the_loo
 failure -/
 theorem evm_runLoop_total (cfg : Cfg) (fuel : Nat) (stack : List JFrame) (w : World) (hne : stack ≠ [])
     (h : LI stack w) (hi : Revm.Proofs.EvmInstLoaded.Inv stack w) :
-    Tot2 (runLoop journalOps cfg fuel stack w) (fun p => WOk p.2) :=
+    Tot2 (runLoop journalOps cfg fuel stack w) (fun p => WOk p.2 ∧ RGood p.1.result) :=
   (tot2_runLoop cfg fuel).1 stack w hne h hi
 
 /-- LINK: the `HostOp` an interpreter step emits for SLOAD / SSTORE / SELFDESTRUCT carries the frame's own address
@@ -936,7 +937,8 @@ theorem transact_no_journal_panic (fuel : Nat) (w : World) (e : Evm.Env) (spec :
 failures. NOT proved: what is missing is (1) C25's per-frame invariant (`init_inv` for the frames `makeFrame` creates —
 code and input within `isize::MAX`, fresh memory context below 2^62 — `step_good` with `RespOk` for every `Host` answer
 and `ChildOk` for every delivered result, `insert_*_outcome` on the memory the child gives back), which removes
-`interpreter: …`, `insert outcome: …`, `free_context`, the EOFCREATE action and the internal result flags. Items (2)
+`interpreter: …`, `insert outcome: …`, `free_context` and the EOFCREATE action (the internal result flags are
+excluded: `RGood`). Items (2)
 (storage requests only for the frame's own loaded address) and (3) (environment) of the earlier list are closed. -/
 def FullStatement_transact_total_link : Prop :=
   ∀ (fuel : Nat) (w : World) (e : Evm.Env) (spec : Nat), WOk w → 2 * e.tx.gasLimit + 2 ≤ fuel →
@@ -944,9 +946,9 @@ def FullStatement_transact_total_link : Prop :=
 
 /-- COROLLARY, in the shape of C01 `FullStatement_transact_total`: on the fresh world of a pre-state with 256-bit
 balances, with the fuel bound stated there, the answer is a result, or an error that is soft (code-store miss,
-precompile panic, oracle miss, fatal) or one of the five residual interpreter-side panics — and never "out of fuel".
+precompile panic, oracle miss, fatal) or one of the four residual interpreter-side panics — and never "out of fuel".
 What separates this from `FullStatement_transact_total`: its `.error _ => False` for panics needs the five residual
-messages excluded (C25's invariant through the loop) and cannot hold for the precompile panic (C23) nor, without a
+messages excluded (C25's invariant through the loop; the EOFCREATE action is an artefact of the legacy-only model) and cannot hold for the precompile panic (C23) nor, without a
 consistent code store, for `code_by_hash`. -/
 theorem transact_total_fresh_partial (spec : Nat) (pre : List PreAcct) (dbHasStorage : Bool)
     (oracle : List PcAnswer) (e : Evm.Env) (hbal : ∀ p ∈ pre, p.balance < W) :
